@@ -256,46 +256,56 @@ func c10QueueSeam(r *ev.Rec) {
 func init() {
 	register("C10", "model_checking", func(r *ev.Rec) {
 		bound, steps := 1, 30
+		type passT struct {
+			bound      int
+			interleave bool
+		}
+		passes := []passT{{1, true}}
 		if r.Tier == "thorough" {
 			bound = 2
+			passes = []passT{{2, false}, {1, true}}
 		}
-		r.Rule = fmt.Sprintf("%d drain scenarios (priority/owner tiers, do-not-disrupt true / expired duration / active duration, static, tolerating, grace nil/5..300s, already terminating, PDB blocked / two PDBs, TGP none/60s/300s/600s, pods using their whole grace period) are driven for %d steps through the real node-termination controller, lifecycle controller and eviction queue (graceful pod deletion and PDB admission emulated by the API layer); every history with <=%d deviations from the fair default cycle is explored (any other enabled reconcile or event inserted: clock +1s/+61s/past-TGP and jumps to every threshold instant — deadline, deadline minus each pod grace period, +-1s, the last half second, mid-window —, PDBs allow, pod finished, node NotReady, restart...). "+
+		r.Rule = fmt.Sprintf("%d drain scenarios (priority/owner tiers, do-not-disrupt true / expired duration / active duration, static, tolerating, grace nil/5..300s, already terminating, PDB blocked / two PDBs, TGP none/60s/300s/600s, pods using their whole grace period) are driven for %d steps through the real node-termination controller, lifecycle controller and eviction queue (graceful pod deletion and PDB admission emulated by the API layer); every history with <=%d deviations from the fair default cycle is explored (an environment event happening in the MIDDLE of a reconcile, before any one of its calls — thorough: as a separate one-deviation pass —, or any other enabled reconcile or event inserted: clock +1s/+61s/past-TGP and jumps to every threshold instant — deadline, deadline minus each pod grace period, +-1s, the last half second, mid-window —, PDBs allow, pod finished, node NotReady, restart...). "+
 			"Every eviction create and pod Delete is judged at the instant it is requested. Plus a seam exploration of all operation sequences of length <=4/5 on the real eviction Queue (Add under early/late/no deadline, Reconcile, clock between the thresholds). states = distinct (scenario, history) reached; non-trivial likewise", len(drainScenarios), steps, bound)
-		r.Assumptions = []string{"interleaving is at reconcile granularity; finer preemption inside a reconcile is not explored by this check", "ordering clause judged as the statement words it: non-critical non-daemon pods before daemon and critical pods"}
+		r.Assumptions = []string{"controllers do not preempt each other inside a reconcile; the ENVIRONMENT may act before any API / provider call of a reconcile", "ordering clause judged as the statement words it: non-critical non-daemon pods before daemon and critical pods"}
 		c10QueueSeam(r)
 		enum.RunEveryShard(r, int64(len(drainScenarios)), func(i int64, l *ev.Local) {
 			sc := drainScenarios[i]
-			ex := &explore.Explorer{Bound: bound, MaxExecs: 400000, Stop: r.Expired, Shard: r.Shard, NShards: r.Shards}
-			ex.Exec = func(run *explore.Run) {
-				l.Mute = run.Replica
-				t := buildTerm(sc)
-				t.run(run, steps, nil, c10After)
-				l.Eval()
-				l.Trace()
-				if !l.Mute {
-					l.States++
-				}
-				l.Nontrivial(sc.name + "/" + hist(t))
-				var rem []string
-				for _, c := range t.w.Client.Log {
-					if c.Kind == "Pod" && (c.Verb == "evict" || c.Verb == "delete") {
-						rem = append(rem, c.Verb+":"+c.Name)
+			for _, pass := range passes {
+				bound, interleave := pass.bound, pass.interleave
+				ex := &explore.Explorer{Bound: bound, MaxExecs: 400000, Stop: r.Expired, Shard: r.Shard, NShards: r.Shards}
+				ex.Exec = func(run *explore.Run) {
+					l.Mute = run.Replica
+					t := buildTerm(sc)
+					t.interleave = interleave
+					t.run(run, steps, nil, c10After)
+					l.Eval()
+					l.Trace()
+					if !l.Mute {
+						l.States++
+					}
+					l.Nontrivial(sc.name + "/" + hist(t))
+					var rem []string
+					for _, c := range t.w.Client.Log {
+						if c.Kind == "Pod" && (c.Verb == "evict" || c.Verb == "delete") {
+							rem = append(rem, c.Verb+":"+c.Name)
+						}
+					}
+					l.Outcome(sc.name + ": " + strings.Join(rem, " "))
+					for _, v := range t.viol {
+						l.Violation(v.Sig, fmt.Sprintf("%s  [scenario=%s history=%v]", v.Msg, sc.name, t.history), map[string]any{"scenario": sc.name, "choices": run.Choices(), "faults": run.Plan(), "history": t.history, "calls": callStrings(t.w)})
+					}
+					if run.Used == bound && len(t.history)%9 == 0 {
+						l.Sample(map[string]any{"scenario": sc.name, "history": t.history, "removals": rem})
 					}
 				}
-				l.Outcome(sc.name + ": " + strings.Join(rem, " "))
-				for _, v := range t.viol {
-					l.Violation(v.Sig, fmt.Sprintf("%s  [scenario=%s history=%v]", v.Msg, sc.name, t.history), map[string]any{"scenario": sc.name, "choices": run.Choices(), "faults": run.Plan(), "history": t.history, "calls": callStrings(t.w)})
+				ex.Explore()
+				noteDiverged(l, ex, "prefix")
+				l.Transitions += int64(ex.Points)
+				if ex.Capped {
+					l.Outcome("exploration-capped")
+					r.Exhaustive = false
 				}
-				if run.Used == bound && len(t.history)%9 == 0 {
-					l.Sample(map[string]any{"scenario": sc.name, "history": t.history, "removals": rem})
-				}
-			}
-			ex.Explore()
-			noteDiverged(l, ex, "prefix")
-			l.Transitions += int64(ex.Points)
-			if ex.Capped {
-				l.Outcome("exploration-capped")
-				r.Exhaustive = false
 			}
 		})
 	})
